@@ -39,14 +39,15 @@ Definition mismatches_mgr := mismatches ok_mgr.
    is, in order, the model's call; the model then asks for a call the transcript no longer has *)
 Definition ok_mgr_prefix (c : mgr_case) : bool :=
   let '(tag, cfg, env0, orders, mem, tr, t0, files, next, fa, panicked, emerge, maint) := c in
+  existsb (fun rank =>
   existsb (fun o => let env := with_morder env0 o in
-  match replay_prefix (handler tag cfg env mem) (init_rstate tr t0 files) with
+  match replay_prefix_r rank (handler tag cfg env mem) (init_rstate tr t0 files) with
   | PBlocked rs => drained rs
   | PDone (GNext _, _) rs => drained rs
   | PDone (GTail _, _) _ => true
   | PPanic _ rs => drained rs
   | PBad _ _ _ _ => false
-  end) orders.
+  end) orders) (rank_candidates (map fst (me_uuid_of env0))).
 Definition mismatches_mgr_prefix := mismatches ok_mgr_prefix.
 
 Definition mgr_exit (c : mgr_case) : Z :=
